@@ -77,7 +77,13 @@ Verdict(o) ==
   IF o.ek # "" THEN [kind |-> o.ek, loc |-> (LET s == Suspect(val, "top") IN
                                              IF s # <<>> THEN s
                                              ELSE LET u == Unsafe2(val, "top") IN IF u = <<>> THEN <<"unpredicted">> ELSE u \o <<"model-quotes">>)]
-  ELSE LET w == SenWhy(val, Expand(o.r), "top") IN IF w = <<>> THEN [kind |-> "ok", loc |-> <<>>] ELSE [kind |-> "wrong-value", loc |-> w]
+  ELSE LET w == SenWhy(val, Expand(o.r), "top")
+           s == Suspect(val, "top")
+       IN IF w = <<>> THEN [kind |-> "ok", loc |-> <<>>]
+          \* a string the model predicts to be misread is the locus even when the first visible difference is elsewhere
+          \* (["x", "+", "a b"] reads back as ["xa b"]: the culprit is "+", the first differing element is "x")
+          ELSE IF s # <<>> THEN [kind |-> "wrong-value", loc |-> s \o <<"read-as", w[Len(w)]>>]
+          ELSE [kind |-> "wrong-value", loc |-> w]
 \* model drift (logged, never a verdict): a single top-level string whose fate the model predicts differently
 Drift(o, vd) == val.t = "str" /\ val.v # <<>> /\ (PredictedUnsafe(val.v, "top", HtmlSafe) <=> vd.kind = "ok")
 
